@@ -216,6 +216,7 @@ class timestamp( object ):
     _timeseps			= ( string
                                     if sys.version_info[0] < 3
                                     else str ).maketrans( ":-.", "   " )
+    _tzsuffix			= re.compile( r'[\s:.-]*([^\d\s:.-]\S*)$' ) # trailing timezone, eg. Etc/GMT-5
     _fmt			= '%Y-%m-%d %H:%M:%S'	# 2014-04-01 10:11:12
 
     # A map of all the common timezone abbreviations to their canonical timezones along with the
@@ -459,9 +460,13 @@ class timestamp( object ):
 
         """
         try:
-            terms		= str( s ).translate( cls._timeseps ).split()
-            if not terms[-1].isdigit(): # Hmm; Last term isn't digits; must be a timezone.
-                terms,tzinfo	= terms[:-1],terms[-1]
+            # A trailing term that isn't digits must be a timezone; split it off before converting
+            # the ':', '-' and '.' separators, as zone names (eg. Etc/GMT-5, W-SU) may contain them.
+            stamp		= str( s ).strip()
+            tzm			= cls._tzsuffix.search( stamp )
+            if tzm:
+                stamp,tzinfo	= stamp[:tzm.start()],tzm.group( 1 )
+            terms		= stamp.translate( cls._timeseps ).split()
             is_dst		= None
             if tzinfo is None:
                 tzinfo		= cls.UTC
